@@ -311,6 +311,14 @@ pub fn run(opts: &Opts) -> Report {
         let b = pool::random_numeric(&mut rng);
         pair_laws(&mut rep, &mut pending, &a, &b);
     }
+    // dyn-wrapped operands: equality and ordering do not depend on how the caller wrapped the value
+    {
+        use crate::facets::dynwrap as dw;
+        let mut vals = dw::scalars();
+        vals.extend(dw::containers());
+        // (a dyn value supports equality, truthiness and member access only; ordering a dyn value is an error)
+        dw::transparency(&mut rep, "equality", &["a == b", "a != b", "b == a", "[a] == [b]", "(a == b) == (b == a)", "(a != b) == !(a == b)"], &vals, &vals);
+    }
     rep.compare_with_model(&opts.driver, &pending);
     rep
 }
